@@ -10,6 +10,9 @@ CONTENT of the value (a sequence named ``k_<key>``, a dict entry, a table
 cell), never from its ``source``: the value therefore tells which input it was
 computed from independently of the bookkeeping under test.
 
+The last step may also return a value of a type every writer accepts that no
+writer can serialise (see "unwritable values" below).
+
 NOTE: no ``from __future__ import annotations`` here, define_app rejects
 string type hints.
 """
